@@ -280,12 +280,12 @@ theorem declScope_iface (n : Bytes) (ms : List IfaceMethod) : Decl.scopeOk (.ifa
 
 /-! ## per view -/
 
-theorem aliasView_scope (m : Member) (l : List Decl) (hl : aliasView m = some l) : l.all Decl.scopeOk = true := by
+theorem aliasView_scope (t : Idl) (m : Member) (l : List Decl) (hl : aliasView t m = some l) : l.all Decl.scopeOk = true := by
   cases m with
   | alias n d ty =>
     simp only [aliasView, Option.map_eq_some_iff] at hl
     obtain ⟨g, _, rfl⟩ := hl
-    cases isAliasDecl ty <;> rfl
+    cases resolvesToObject t ty <;> rfl
   | method => simp [aliasView] at hl; subst hl; rfl
   | error => simp [aliasView] at hl; subst hl; rfl
 
@@ -559,7 +559,7 @@ theorem scopesOk_genFile (t : Idl) (f : GoFile) (hm : ∀ m ∈ t.members, Membe
     _, e1, e2, e3, e4, e5, e6, e7, e8, rfl⟩ := genFile_inv hf
   have sub : ∀ (p : Member → Bool), ∀ m ∈ t.members.filter p, MemberGood m :=
     fun p m hm' => hm m (List.mem_filter.mp hm').1
-  have a1 := concatOptL_all aliasView Decl.scopeOk _ _ (fun m _ x hx => aliasView_scope m x hx) e1
+  have a1 := concatOptL_all (aliasView t) Decl.scopeOk _ _ (fun m _ x hx => aliasView_scope t m x hx) e1
   have a2 := concatOptL_all errorView Decl.scopeOk _ _ (fun m _ x hx => errorView_scope m x hx) e2
   have a3 := concatOptL_all (methodClientView t.name) Decl.scopeOk _ _
     (fun m hm' x hx => methodClientView_scope _ m (sub _ m hm') x hx) e3
